@@ -8,7 +8,7 @@
    P compares what the statement talks about: return values, accounted memory (used, <= lim), the number and the SET
    of stored keys (which entries were purged).  The freedom of the P-layer is resolved from the observation: an
    expired entry the implementation no longer shows was dropped (D), a rejected add kept the old entry iff it still shows. *)
-EXTENDS ClpMapImpl, TraceLib
+EXTENDS ClpMapImpl, TracePos
 VARIABLES h, l
 TraceC0 == Tr[1].c0
 TInit == entries = <<>> /\ now = 0 /\ h \in 1..NHist /\ limit = Tr[h].lim0 /\ l = 1
@@ -38,5 +38,5 @@ ActI == \/ Ev.e = "Get" /\ IGet(Ev.k, Ev.ret)
 TTick == Ev.e = "Tick" /\ Tick(Ev.dt)
 TNextP == More /\ (ActP \/ TTick) /\ ObsP /\ Step
 TNextI == More /\ (ActI \/ TTick) /\ ObsI /\ Step
-Mark == MarkAccepted(h, l)
+Mark == MarkPos(h, l)
 ====
